@@ -6,6 +6,7 @@ import Driver.Bind
 import Driver.LexDrv
 import Driver.Lit
 import Driver.CliDrv
+import Driver.Run2
 open Lean
 
 partial def loop (h : IO.FS.Stream) (out : IO.FS.Stream) (f : Json → Json) : IO Unit := do
@@ -26,6 +27,7 @@ def generic (g : DrvRun.GOracle) (j : Json) : Json :=
   | "lex" => DrvLex.lex j
   | "lit" => DrvLit.lits g j
   | "cli" => DrvCli.cli j
+  | "run2" => DrvRun2.run2 g j
   | "hist" =>
     -- a history of operations run in one process: every operation is judged on its own against
     -- the (history-free) model
